@@ -597,6 +597,35 @@ def probes(ctx, mult=1, models=MODELS):
                 fail("whole_sample_shift", c, "shower at the window edge (offset %g samples), moving t0 by %d samples: max |v'[j] - v[j-m]| = %.3g on the overlap (tolerance %.3g, peak %.3g)" % (
                     frac, m, err, tol, peak), m=m)
 
+    # ---- ZHS: the exact zero-exit condition and the 2N-periodic continuation (theorems zhs_zeroed_iff, zhs_whole_sample_shift_all)
+    if "ZHS" in MODELS:
+        for it in range(ctx.n(4, 40) * mult):
+            c = probe_case(rng, "ZHS")
+            N, dt = len(c["times"]), c["dt"]
+            hi, lo = N + N // 2 + 1, N // 2 - N - 1          # zero exit  <=>  x >= hi  or  x <= lo,  x = (t0 - times[0]) / dt
+            for x in (hi, hi - 0.25, hi - 1, hi + 0.5, hi + N, lo, lo + 0.25, lo + 1, lo - 0.5, lo - N, rng.uniform(lo - 3, hi + 3)):
+                v = run(c, t0=c["times"][0] + x * dt)
+                if v is None:
+                    continue
+                count("zhs_zero_exit")
+                expect_zero = (x >= hi) or (x <= lo)
+                if bool(np.all(v == 0)) != expect_zero:
+                    fail("zero_exit", dict(c, t0=c["times"][0] + x * dt), "shower %g samples after times[0], N=%d: all-zero=%s but the zero exit is %s (taken iff x >= %d or x <= %d)" % (
+                        x, N, bool(np.all(v == 0)), "expected" if expect_zero else "not expected", hi, lo))
+            # samples entering the window under a whole-sample shift are the 2N-periodic continuation, visible in the call at t0 - N dt
+            k = rng.randint(N // 2 + 1, N - 1)
+            m = rng.choice([1, 2, -1, -3, N // 4 + 1, -(N // 4) - 1])
+            t0 = c["times"][0] + (k + rng.choice([0.0, 0.5, 0.125])) * dt
+            v, vw, vf = run(c, t0=t0), run(c, t0=t0 + m * dt), run(c, t0=t0 - N * dt)
+            if v is None or vw is None or vf is None or not np.any(vf != 0) or not np.any(vw != 0):
+                continue
+            count("zhs_wraparound")
+            ref = np.array([v[j - m] if 0 <= j - m < N else vf[(j - m) % (2 * N) - N] for j in range(N)])
+            peak = float(np.abs(v).max())
+            err = float(np.abs(vw - ref).max())
+            if err > 1e2 * PEAK_TOL * peak:
+                fail("whole_sample_shift", dict(c, t0=t0), "moving t0 by %d samples: samples entering the window are not the 2N-periodic continuation: max error %.3g (peak %.3g)" % (m, err, peak), m=m)
+
     # ---- finiteness / graceful failure over the whole declared input space (cheap models everywhere, ARZ away from the
     #      unaffordable band 1e-6 < |theta - theta_c| < 5e-3 where dt_divider reaches 1e4..1e6)
     for model in MODELS:
@@ -717,11 +746,11 @@ def run(ctx):
                     "the four slicing cases, decimation, diff): pinned by AST hash, validated against the real classes by correspondence"]
     ctx.assumptions += ["theorems are over the real numbers; binary64 rounding is covered by the numeric correspondence and probes only",
                         "scipy.fft.ifft / np.fft.irfft / scipy.signal.convolve are modelled by their defining sums (validated by correspondence, not proved about the libraries)",
-                        "ZHS whole-sample shift: stated for samples that stay inside the window and when neither call takes the zero exit (pulse > N/2 samples outside)",
-                        "ARZ whole-sample shift: exact over R when the truncation of n_shift is consistent between the two calls; otherwise only up to the +-10 ns RAC window truncation (probe tolerance 1e-3 of the peak)",
-                        "peak claim: proved per spectral component (ZHS, AVZ with the stated displacement bound); the time-domain peak is probed (ZHS exact argument, ARZ sampled on grids that resolve the pulse, dt <= 90 ps)",
+                        "ZHS whole-sample shift: holds for every sample (incl. those entering / leaving the window: 2N-periodic continuation) whenever the shifted call does not take the zero exit; the zero exit is proved to be taken exactly when (t0-times[0])/dt >= L + L/2 + 1 or <= L/2 - L - 1 (by design the code returns zeros there; probed on the implementation at the exact boundaries)",
+                        "ARZ whole-sample shift: proved when t0 and t0 + m dt lie on the same side of times[0] + 10 ns (then int() truncates n_shift consistently -- an iff is proved for the truncation); when they straddle it the +-10 ns RAC window moves by one lattice point (probe tolerance 1e-3 of the peak)",
+                        "peak claim: ZHS proved in the time domain (the sample at the shower time is the sum of the spectral amplitudes, bounds every sample, and falls with the angular distance from the cone); AVZ proved per spectral component with the stated displacement bound; ARZ time-domain peak only probed, on grids that resolve the pulse (dt <= 90 ps) and n in [1.3, 1.8]",
                         "ARZ shower energies within a factor e^0.2 of the critical energy 0.0786 GeV are excluded from the probes (max_length -> 0 makes dt_divider explode; exactly at it int(inf) raises OverflowError)"]
-    ctx.partial += ["zhs_whole_sample_shift (non-zeroed regime)", "arz_whole_sample_shift (consistent truncation)", "time-domain peak monotonicity (probed, not proved)"]
+    ctx.partial += ["arz_whole_sample_shift_partial (t0 and t0 + m dt on the same side of times[0] + 10 ns)", "ARZ / AVZ time-domain peak monotonicity (probed / per spectral component, not proved in the time domain)"]
     try:
         files, side = gen_files(ctx.scratch)
         for k, v in files.items():
